@@ -97,7 +97,7 @@ func main() {
 						for sm := 0; sm < len(schedNames); sm++ {
 							p := base
 							p.SchedMode = sm
-							run := &univ.Run{Plan: &p}
+							run := &univ.Run{Plan: &p, RegisterExt: true}
 							o := diffrun.Compare(context.Background(), s.env, s.srv, doc, op.Query, op.OpName, vars, &p, run, 30*time.Second)
 							cid := diffrun.Case{Probe: name, OpSeed: opSeed, Kind: string(kind), Plan: p, Query: op.Query, OpName: op.OpName, Vars: op.Vars,
 								Extra: map[string]any{"gomaxprocs": np, "schedule": schedNames[sm]}}
@@ -145,6 +145,16 @@ func main() {
 							}
 							if len(gs) > 1 {
 								rep.Count("runs_with_resolvers_on_several_goroutines", 1)
+							}
+							// every resolver registered one response extension under its own key: none may be lost
+							nExt := 0
+							for _, pl := range o.Got.Payloads {
+								nExt += pl.Extensions
+							}
+							if nExt != len(rs) {
+								rep.Violate("", map[string]any{"case": cid, "why": fmt.Sprintf("%d resolver invocations registered a response extension each (concurrently), the response carries %d", len(rs), nExt)})
+							} else if len(rs) > 1 {
+								rep.Count("runs_with_all_concurrently_registered_extensions_present", 1)
 							}
 							rep.Count("resolver_events", int64(len(rs)))
 							rep.Count("errors_in_responses", int64(len(o.Want.Errors)))
